@@ -18,6 +18,7 @@ import (
 	"github.com/lni/dragonboat/v4/internal/vfs"
 	"github.com/lni/dragonboat/v4/raftio"
 	pb "github.com/lni/dragonboat/v4/raftpb"
+	gvfs "github.com/lni/vfs"
 )
 
 // FS is the file system type used everywhere.
@@ -106,3 +107,13 @@ func ReadSnapshotFile(fp string, fs FS) (data []byte, err error) {
 func GetV2PayloadChecksum(fp string, fs FS) ([]byte, error) {
 	return rsm.GetV2PayloadChecksum(fp, fs)
 }
+
+// MemFS is the in-memory file system type (strict variant: unsynced data is
+// dropped by ResetToSyncedState, syncs can be switched off).
+type MemFS = vfs.MemFS
+
+// File is a file of FS.
+type File = vfs.File
+
+// NewStrictMemFS returns a new strict in-memory file system.
+func NewStrictMemFS() *MemFS { return gvfs.NewStrictMem() }
